@@ -970,44 +970,43 @@ class Terminal:
                                     f"for {index:x}:{subindex:x}")
         else:
             async with self.mbx_lock:
+                sentsubidx = 1 if subindex is None else subindex
                 stop = min(len(data), self.mbx_out_sz - 16)
                 await self.mbx_send(
-                        MBXType.COE, "HBHB4x", CoECmd.SDOREQ.value << 12,
+                        MBXType.COE, "HBHBI", CoECmd.SDOREQ.value << 12,
                         ODCmd.DOWN_INIT_CA.value if subindex is None
                         else ODCmd.DOWN_INIT.value,
-                        index, 1 if subindex is None else subindex,
-                        data=data[:stop])
-                type, data = await self.mbx_recv()
+                        index, sentsubidx, len(data), data=data[:stop])
+                type, response = await self.mbx_recv()
                 if type is not MBXType.COE:
                     raise EtherCatError(f"expected CoE, got {type}")
-                coecmd, sdocmd, idx, subidx = unpack("<HBHB", data[:6])
+                coecmd, sdocmd, idx, subidx = unpack("<HBHB", response[:6])
                 if coecmd >> 12 != CoECmd.SDORES.value:
                     raise EtherCatError(f"expected CoE SDORES, got {coecmd>>12:x}")
-                if idx != index or subindex != subidx:
+                if idx != index or sentsubidx != subidx:
                     raise EtherCatError(f"requested index {index}, got {idx}")
                 toggle = 0
                 while stop < len(data):
                     start = stop
                     stop = min(len(data), start + self.mbx_out_sz - 9)
-                    if stop == len(data):
-                        if stop - start < 7:
-                            cmd = 1 + (7-stop+start << 1)
-                            d = data[start:stop] + b"\0" * (7 - stop + start)
-                        else:
-                            cmd = 1
-                            d = data[start:stop]
-                        await self.mbx_send(
-                                MBXType.COE, "HBHB4x", CoECmd.SDOREQ.value << 12,
-                                cmd + toggle, index,
-                                1 if subindex is None else subindex, data=d)
-                        type, data = await self.mbx_recv()
-                        if type is not MBXType.COE:
-                            raise EtherCatError(f"expected CoE, got {type}")
-                        coecmd, sdocmd, idx, subidx = unpack("<HBHB", data[:6])
-                        if coecmd >> 12 != CoECmd.SDORES.value:
-                            raise EtherCatError(f"expected CoE SDORES")
-                        if idx != index or subindex != subidx:
-                            raise EtherCatError(f"requested index {index}")
+                    segment = data[start:stop]
+                    cmd = toggle | (stop == len(data))  # last segment
+                    if len(segment) < 7:  # pad short segments to 7 bytes
+                        cmd |= (7 - len(segment)) << 1
+                        segment += b"\0" * (7 - len(segment))
+                    await self.mbx_send(
+                            MBXType.COE, "HB", CoECmd.SDOREQ.value << 12,
+                            cmd, data=segment)
+                    type, response = await self.mbx_recv()
+                    if type is not MBXType.COE:
+                        raise EtherCatError(f"expected CoE, got {type}")
+                    coecmd, sdocmd = unpack("<HB", response[:3])
+                    if coecmd >> 12 != CoECmd.SDORES.value:
+                        raise EtherCatError(f"expected CoE SDORES")
+                    if (sdocmd & 0xf0) != (0x20 | toggle):
+                        raise EtherCatError(
+                            f"expected download segment {toggle:x}, "
+                            f"got {sdocmd:x}")
                     toggle ^= 0x10
 
     async def read_object_entry(self, index, subidx):
